@@ -307,7 +307,7 @@ def read_cgsmiles(pattern):
                         # anchor residue. Only the outermost branch in an expansion
                         # is expanded including the anchor. This allows easy description
                         # of graft polymers.
-                        if prev_anchor:
+                        if prev_anchor is not None:
                             offset = ref_anchor - prev_anchor
                             prev_node = prev_node + offset
                             skip = 1
